@@ -26,14 +26,14 @@ import CE.Canon
     step reads back exactly this event and leaves the rest of the input untouched".
   * `chunked_document_roundtrip` — the same for documents that also contain arrays SENT IN CHUNKS
     (`arrayBegin`, any number of `arrayChunk n more`, the data of each chunk in any number of
-    `arrayData` pieces; strings, resource ids and every byte-multiple typed array), media objects and
+    `arrayData` pieces; strings, resource ids, remote references and every byte-multiple typed array), media objects and
     custom binary data (begin event with the media type / type number, then chunks): this is the part of
     the encoder with state (the first chunk decides between the short header and header + chunk
     length) and of the decoder that loops over chunk headers (CE/Cbe/ItemRoundTrip.lean).
   * the per-event prefix-code round trips for integers, with arbitrary following bytes
     (`…_partial` below).
-  Not proved (`_partial`): doubles in the float32 subnormal range, times, bit arrays, remote references and
-  the one-event forms of media / custom binary (same bytes as begin + one chunk) are carried by the CBE.ENC / CBE.DEC correspondence and the round-trip
+  Not proved (`_partial`): doubles in the float32 subnormal range, times, bit arrays and the one-event forms of
+  remote references / media / custom binary (same bytes as begin + one chunk) are carried by the CBE.ENC / CBE.DEC correspondence and the round-trip
   oracle of `bin/check C01` only.
 -/
 namespace CE.Props.C01
